@@ -48,7 +48,7 @@ def run_tests(dst):
     r = subprocess.run(
         [PY, "-m", "pytest", "-q", "-p", "no:cacheprovider", "-x", "tests/test_ast.py", "tests/test_declast.py",
          "tests/test_generate.py", "tests/test_statements.py", "tests/test_util.py", "tests/test_wrapp.py"],
-        cwd=dst, env=env, capture_output=True, text=True)
+        cwd=dst, env=env, capture_output=True, text=True, errors="replace")
     tail = (r.stdout.strip().splitlines() or [""])[-1]
     return r.returncode == 0, tail
 
@@ -82,7 +82,7 @@ def main():
             env = dict(os.environ)
             env["VT_NO_EVIDENCE"] = "1"
             r = subprocess.run([PY, "-m", "vt.run", prop, "--tier", args.tier, "--repo", dst],
-                               cwd=VERIF, capture_output=True, text=True, env=env)
+                               cwd=VERIF, capture_output=True, text=True, errors="replace", env=env)
             viol = [ln for ln in r.stdout.splitlines() if ln.startswith("VIOLATION")]
             detected = r.returncode == 1 and bool(viol)
             if not detected:
